@@ -68,6 +68,19 @@ func (m c03mon) Check(s *sim.Sim, st *sim.Step) []*sim.Violation {
 				}
 			}
 		}
+		// (i') the second-factor step of a session that already names the account: it too completes a login
+		// (it takes the session to full, second-factor authentication and answers with the login redirect)
+		if U := st.UIDOut; U != "" && U == st.UIDIn && strings.HasSuffix(flow, "_validate") && rec.SessOut["twofactor"] != "" && (rec.SessIn["twofactor"] == "" || rec.SessIn["halfauth"] != "" && rec.SessOut["halfauth"] == "") {
+			if u := rec.Before.Users[U]; u != nil {
+				if s.Cfg.Has("lock") && u.Locked.After(now) {
+					vs = append(vs, vio("C03", "locked-account-completed-second-factor-step|"+flow, "%s took the session of %q to second-factor authentication although the account is locked until %s (now %s)", flow, U, ts(u.Locked), ts(now)))
+				} else if s.Cfg.Has("confirm") && !u.Confirmed {
+					vs = append(vs, vio("C03", "unconfirmed-account-completed-second-factor-step|"+flow, "%s took the session of unconfirmed %q to second-factor authentication", flow, U))
+				} else {
+					m.stats.Count("second-factor-step-in-existing-session")
+				}
+			}
+		}
 		// count blocked attempts (evidence that the guards were exercised)
 		if pid := a.PID; a.Kind == flow && st.UIDOut == st.UIDIn {
 			if strings.HasSuffix(flow, "_validate") {
@@ -275,6 +288,31 @@ var c03Templates = []sim.Template{
 		return []*sim.Action{act("admin_lock", b, v, ""), act("faultnext", b, -9, "", "op", "Save"), act("login", b, v, "ok"), act("visit", b, -9, "", "route", "/protected/lockonly"),
 			act("faultnext", b, -9, "", "op", pickS(s.R, "Save", "Load")), act("login", b, v, "ok"), act("visit", b, -9, "", "route", "/protected/plain")}
 	}},
+	{Name: "second-factor-step-of-a-session-that-is-already-logged-in", F: func(s *sim.Sim) []*sim.Action {
+		// a session that names the account but carries no second-factor mark (the factor was switched on for
+		// the account after the login, by the operator); the account is then locked / un-confirmed; the
+		// browser proves the factor at the validate page
+		if !s.Cfg.Has("auth") || len(s.Cfg.TwoFA) == 0 || !(s.Cfg.Has("lock") || s.Cfg.Has("confirm")) {
+			return nil
+		}
+		kind := s.Cfg.TwoFA[s.R.Intn(len(s.Cfg.TwoFA))]
+		v := findAcct(s, func(u *world.User) bool { return u.Confirmed && u.TOTPSecretKey == "" && u.SMSPhone == "" })
+		if v < 0 {
+			return nil
+		}
+		b := s.R.Intn(len(s.Br))
+		k := kind + "_validate"
+		sc := []*sim.Action{act("login", b, v, "ok"), act("admin_enable2fa", b, v, "", "kind", kind)}
+		if s.Cfg.Has("lock") && (!s.Cfg.Has("confirm") || s.R.Intn(2) == 0) {
+			sc = append(sc, act("admin_lock", b, v, ""))
+		} else {
+			sc = append(sc, act("admin_startconfirm", b, v, ""))
+		}
+		if kind == "sms" {
+			sc = append(sc, act(k, b, -9, "empty")) // asks for a code
+		}
+		return append(sc, act(k, b, -9, "ok"), act("visit", b, -9, "", "route", "/protected/2fa"), act(k, b, -9, "recovery"), act("visit", b, -9, "", "route", "/protected/2fa"))
+	}},
 	{Name: "unconfirmed-every-path", F: func(s *sim.Sim) []*sim.Action {
 		if !s.Cfg.Has("confirm") {
 			return nil
@@ -309,7 +347,7 @@ var c03Profile = &sim.Profile{
 func init() {
 	register(&Check{
 		ID: "C03", Level: "exploration",
-		Rule:  "histories over random load orders of lock/confirm/remember relative to the login modules and of totp/sms: correct and incorrect attempts on every login path, lock by failures / manually / expiry by clock advance placed at LockDuration-1ns and +1ns, lock acquired between the password and the 2FA step, re-started confirmation, unconfirmed accounts created by register/seeding/OAuth2. Oracle: storage is read BEFORE each request (Locked>now on the frozen virtual clock, Confirmed); if an interactive flow ends with uid=U for such an account, or the probe behind lock/confirm middleware runs for such a session user, it is a violation. In worlds with a second instance in the process, a login-type request that causes backend calls on that instance is a violation (the flow was handled by the other instance's modules; this instance's lock/confirm were not consulted). distinct_nontrivial = distinct (flow, class, locked/unconfirmed account state, session state, mode, load order, outcome) signatures for locked or unconfirmed accounts only.",
+		Rule:  "histories over random load orders of lock/confirm/remember relative to the login modules and of totp/sms: correct and incorrect attempts on every login path, lock by failures / manually / expiry by clock advance placed at LockDuration-1ns and +1ns, lock acquired between the password and the 2FA step, re-started confirmation, unconfirmed accounts created by register/seeding/OAuth2. Oracle: storage is read BEFORE each request (Locked>now on the frozen virtual clock, Confirmed); if an interactive flow ends with uid=U for such an account, or the probe behind lock/confirm middleware runs for such a session user, it is a violation. In worlds with a second instance in the process, a login-type request that causes backend calls on that instance is a violation (the flow was handled by the other instance's modules; this instance's lock/confirm were not consulted). (i') The second-factor step of a session that already names the account (the factor was switched on for the account after it logged in) must not take a locked / unconfirmed account to second-factor authentication. distinct_nontrivial = distinct (flow, class, locked/unconfirmed account state, session state, mode, load order, outcome) signatures for locked or unconfirmed accounts only.",
 		Units: func(t string) int { return tierN(t, 800, 30000) },
 		Run: func(c *RunCtx, unit int) {
 			r := Rng(c.Seed, "C03", unit)
